@@ -496,7 +496,7 @@ pub fn spec(id: &str, variant: &str, cancelable: bool, thorough: bool) -> Option
                 cycles: (0, 6),
                 sched_len: (0, 40),
                 cancelable: Some(cancelable),
-                templates: vec![(3, Template::CrossQueue), (1, Template::FanIn)],
+                templates: if cancelable { vec![(3, Template::CrossQueue), (1, Template::FanIn), (2, Template::OverflowReplay)] } else { vec![(3, Template::CrossQueue), (1, Template::FanIn)] },
                 ..base.clone().set(&[
                     (K::Bulk, 1),
                     (K::Cancel, 9),
@@ -509,6 +509,7 @@ pub fn spec(id: &str, variant: &str, cancelable: bool, thorough: bool) -> Option
                     (K::AddPropsH, 3),
                     (K::AddEventH, 3),
                     (K::Fill, if cancelable { 2 } else { 0 }),
+                    (K::Volley, if cancelable { 2 } else { 0 }),
                 ])
             }),
             opts: ExecOpts {
@@ -553,7 +554,7 @@ pub fn spec(id: &str, variant: &str, cancelable: bool, thorough: bool) -> Option
                 cycles: (0, 8),
                 sched_len: (0, 40),
                 cancelable: Some(cancelable),
-                templates: vec![(3, Template::CrossQueue)],
+                templates: vec![(3, Template::CrossQueue), (2, Template::FullExit)],
                 ..base.clone().set(&[
                     (K::Bulk, 1),
                     (K::Root, 16),
@@ -585,6 +586,7 @@ pub fn spec(id: &str, variant: &str, cancelable: bool, thorough: bool) -> Option
                 templates: vec![(3, Template::OverflowReplay)],
                 ..base.clone().set(&[
                     (K::Fill, 10),
+                    (K::Volley, 4),
                     (K::Cancel, 6),
                     (K::Finish, 18),
                     (K::Root, 12),
@@ -955,6 +957,14 @@ pub fn spec(id: &str, variant: &str, cancelable: bool, thorough: bool) -> Option
             sp.nontrivial = nt_c16_disabled;
             sp.profile = sp.profile.set(&[(K::CollectorStart, 4), (K::PushChildSpans, 3), (K::ToSpanRecords, 3), (K::CtxOfLocal, 4), (K::Flush, 3), (K::Root, 12), (K::RootFromCtx, 2)]);
             sp.rule = "the full operation language compiled against fastrace WITHOUT the enable feature: every closure passed to the library counts its invocations; oracle: zero report() calls, no context/elapsed/records, no closure invoked, #[trace] functions return their values; non-trivial = >=3 distinct closure-taking entry points exercised";
+            sp
+        }
+        ("C16", "noreporter") => {
+            let mut sp = spec("C16", "api", cancelable, thorough).unwrap();
+            sp.opts.reporter_ready = false;
+            sp.profile.p_sampled = 0.5;
+            sp.profile = sp.profile.set(&[(K::Root, 14), (K::RootFromCtx, 3), (K::CtxOfLocal, 4), (K::Noop, 3)]);
+            sp.rule = "the same call sequences in a fresh process in which no reporter has been installed yet (half of the roots from unsampled contexts, some from decoded traceparent headers): every span is created before a reporter is installed, so none records: no context, no elapsed(), no closure invoked, nothing delivered; non-trivial as for the api variant";
             sp
         }
         ("C16", "api") => PropSpec {
